@@ -10,7 +10,7 @@ from symnp import core
 from symnp.hapi import PreconditionFailed
 
 STUB_DOC = [
-    'D(l,r)[i] >= 0 replaces the requested one of linear_fit.shortest_distance_points / perpendicular_distance_points on points[l..r], the other one gets its own free values (no other assumption: '
+    'D(l,r)[i] >= 0 (a separate family of values when the chord handed to the kernel is not first point -> last point of the sub-array) replaces the requested one of linear_fit.shortest_distance_points / perpendicular_distance_points on points[l..r], the other one gets its own free values (no other assumption: '
     'end points are NOT assumed to be at distance 0, which covers float64 rounding noise)',
     'cost(l,r) free real replaces rdp.compute_cost_coef o linear_fit.linear_fit_points',
     'score(l,r) >= 0 replaces linear_fit.linear_fit_residuals_points (Order.segment); order_triangle / order_area are real code over D',
@@ -35,21 +35,34 @@ class Stubs:
     def rng(pt):
         return int(pt[0][0]), int(pt[-1][0])
 
-    def d(self, l, r, i):
-        if self.k1 and i in (l, r):
+    def d(self, l, r, i, chord=''):
+        if self.k1 and i in (l, r) and not chord:
             return Fr(0)
-        return self.h.real('d_%d_%d_%d' % (l, r, i), nn=True)
+        return self.h.real('d%s_%d_%d_%d' % (chord, l, r, i), nn=True)
+
+    @staticmethod
+    def chord(pt, a, b):
+        """'' when the chord handed to the kernel is (first point, last point) of the sub-array, otherwise a tag: distances to another chord are other values"""
+        if a is None or b is None:
+            return ''
+        try:
+            ta, tb = int(a[0]), int(b[0])
+        except Exception:
+            return 'q'
+        return '' if (ta, tb) == Stubs.rng(pt) else 'c%d_%d' % (ta, tb)
 
     def dist(self, pt, a=None, b=None):
         self._tick('dist')
         l, r = self.rng(pt)
-        return self.h.np.array([self.d(l, r, i) for i in range(l, r + 1)])
+        ch = self.chord(pt, a, b)
+        return self.h.np.array([self.d(l, r, i, ch) for i in range(l, r + 1)])
 
     def dist_other(self, pt, a=None, b=None):
         """the distance function that was NOT requested: its own free values, so that a driver using the wrong one is visible"""
         self._tick('dist')
         l, r = self.rng(pt)
-        return self.h.np.array([Fr(0) if (self.k1 and i in (l, r)) else self.h.real('dx_%d_%d_%d' % (l, r, i), nn=True) for i in range(l, r + 1)])
+        ch = self.chord(pt, a, b)
+        return self.h.np.array([Fr(0) if (self.k1 and i in (l, r) and not ch) else self.h.real('dx%s_%d_%d_%d' % (ch, l, r, i), nn=True) for i in range(l, r + 1)])
 
     def cost(self, l, r):
         return self.h.real('c_%d_%d' % (l, r))
